@@ -15,6 +15,11 @@ def repsOf (bs : List UInt8) : List String :=
              s!"B:{hexOfBytes (pad (fun i => UInt8.ofNat (0xA0 + i)))}:{bs.length}"]
   else base
 
+/-- byte strings of one length: a counting pattern, all zeros, all 0xFF, zeros with a last non-zero byte -/
+def specialBytes (len salt : Nat) : List (List UInt8) :=
+  [patBytes len salt, List.replicate len 0, List.replicate len 0xFF] ++
+    (if len ≥ 2 then [List.replicate (len - 1) 0 ++ [7]] else [])
+
 def genHex15 (seed : Nat) (maxLen : Nat) (randomCases : Nat) : Array String := Id.run do
   let mut out : Array String := #["reset"]
   let mut rng : Rng := ⟨UInt64.ofNat (seed * 7919 + 15)⟩
@@ -22,8 +27,8 @@ def genHex15 (seed : Nat) (maxLen : Nat) (randomCases : Nat) : Array String := I
   for len in [0:maxLen + 1] do
     let (r', salt) := rng.below 40
     rng := r'
-    let bs := patBytes len salt
-    for h in repsOf bs do
+    for bs in specialBytes len salt do
+     for h in repsOf bs do
       allReps := allReps.push h
       out := out.push s!"hex view {h}"
       out := out.push s!"hex rangefull {h}"
@@ -80,6 +85,12 @@ def genConcat16 (seed : Nat) (maxLen : Nat) : Array String := Id.run do
       for a in repsOf (patBytes la sa) do
         for b in repsOf (patBytes lb (sb + 1)) do
           out := out.push s!"hex concat {a} {b}"
+      -- degenerate contents: all-zero / all-ones receivers and operands (an all-zero inline array looks "blank")
+      for ba in (specialBytes la sa).drop 1 do
+        for bb in [patBytes lb (sb + 1), List.replicate lb 0] do
+          for a in repsOf ba do
+            for b in (repsOf bb).take 2 do
+              out := out.push s!"hex concat {a} {b}"
   return out
 
 def labelAlphabet : List Char := ['a', 'Z', '0', '5', '9', '+', '-', 'α', 'ρ', 'ν', 'é', Char.ofNat 0x1D711, ' ', 'x']
